@@ -47,6 +47,8 @@ MUT_QUERIES = [
     "mk-matrix-2/deepmut", "mk-matrix-2/ident", "mk-matrix-2/deepmut/deepmut-w", "mk-lod-2/deepmut/ident", "mk-lod-2/ident",
     "mk-nested/deepmut", "mk-matrix-3/push-a/deepmut",
     "mk-tlist-2/deepmut", "mk-tlist-2/ident", "mk-tlist-2/deepmut/deepmut-w", "mk-tlist-1/deepmut/ident", "mk-tlist-2/ident/deepmut",
+    "one/let-plain-q/num-3/getvar-plain", "one/let-mlist-zz/lit-a/getvar-mlist", "one/mutvar-mlist/num-2/getvar-mlist",
+    "one/let-plain-q/firstcat-~X~/one~E/state_variable-plain",
     "-R/res.txt", "res.txt/-/ident", "-R/dir/n.json", "dir/n.json/-/cat-x", "-R/res.txt/-/cat-a/cat-b",
     "ctxmut-mlist/getvar-mlist", "one/ctxmut-mlist/getvar-mlist", "ctxmut-mdict/getvar-mdict", "one/ctxmut-mlist/ctxmut-mlist/ident",
 ]
@@ -130,6 +132,9 @@ def run_history(env, kind, events, scratch, viol, stats, rnd):
         ref = env.reference(q, e.get("input"), e.get("extra"))
         h0 = cache.hits if cache is not None else 0
         got, st, log = env.evaluate(q, e.get("input"), e.get("extra"), cache=cache)
+        if getattr(env, "input_mutated", None):
+            viol("injected_input_value_mutated", "%s: step %d evaluate(%r, input_value=%s): the caller's object became %s" % (
+                kind, step, q, env.input_mutated[0], env.input_mutated[1]), step)
         if got is None or ref is None:
             continue
         stats["evaluations"] += 1
@@ -245,8 +250,10 @@ def run_shard(spec):
             for _ in range(rnd.randint(6, 12)):
                 e = {"q": rnd.choice(fam)}
                 r = rnd.random()
-                if r < 0.08:
+                if r < 0.12:
                     e["input"] = rnd.choice([3, 4, 8])  # [1,2], {"k":1}, []
+                    if rnd.random() < 0.6:
+                        e["q"] = rnd.choice(["push-i", "push-i/push-j", "setkey-a-b", "deepmut", "ident/push-k", "cat-x"])
                 events.append(e)
             run_history(env, kind, events, scratch, make_viol(kind, events), stats, rnd)
             if not samples and h == 1:
